@@ -246,6 +246,11 @@ static void gen_cache(vh_rng_t *rng)
   if (vh_chance(rng, 1, 2)) {
     app_cfg.qcache_max_ttl = 3600;
   }
+  if (vh_chance(rng, 1, 5)) {
+    /* socket calls that fail now and then: attempts end on the spot, answers arrive on replacement connections */
+    sim_rand_fault_permille = vh_chance(rng, 1, 2) ? 15 : 50;
+    sim_note("cache_with_socket_faults");
+  }
   if (vh_chance(rng, 1, 3)) {
     static const uint32_t et[] = { 5, 60, 600, 3600 };
     sim_error_soa_ttl          = et[vh_below(rng, 4)];
